@@ -170,6 +170,18 @@ CLAIMS = {
          "iterchunks' copying are compared on exhaustive small and random 62-bit cases.",
          "Coq proof over source-translated functions (tie T) + in-Coq differential evaluation (tie K)",
          "6.C14"),
+ 'C19': ("kernel-checked over Sched.v (the user-counting protocol of Array._open_array, iterchunks "
+         "generators with frames from the GENERATED iterindices, open_array contexts, element reads/writes): "
+         "for ANY action sequence of any length with any number of generators and contexts the protocol "
+         "invariant holds and no step touches a closed memory map (C19_safe, by induction over the "
+         "schedule), a chunk is read through the shared map at the moment it is returned "
+         "(C19_chunk_is_current), and when all users are finished no map or file handle is open "
+         "(C19_no_leak). PARTIAL on one point: that touching an unmapped page kills the interpreter is "
+         "runtime behaviour, observed not modelled. Tie: random well-formed interleavings (+ the schedule "
+         "that crashed the pinned tree), each in its own interpreter on a 4.8 MB array; exit status, every "
+         "chunk/value, user counter, cached map, open fds and mappings compared with the model in coqc.",
+         "Coq invariant proof over a protocol state machine for all schedules + per-schedule child processes compared in coqc",
+         "6.C19"),
  'C20': ("kernel-checked over Fs.v: a name given to any public DataDir mutator that RESOLVES ('.', '..', "
          "separators, absolute spelling, symbolic links) on or below a protected entry is refused with OSError "
          "and the file system is unchanged (C20_protected), in particular for the unbounded family of spellings "
